@@ -7,9 +7,9 @@ CONSTANTS
   MaxBurns = 3
   MaxMints = 2
   Merger = "overwrite"
-  TicketStore = "first"
+  TicketStore = "all"
   BurnsFirst = FALSE
-  MintKey = "to"
+  MintKey = "minter"
 
-INVARIANTS C20w_MergeKeepsLast C20w_StoresOneTicket C20w_BurnTotalsOfMerged C20w_NoMintTotals
+INVARIANTS C20w_MergeKeepsLast C20w_StoresAllMerged C20w_BurnTotalsOfMerged C20w_MintTotalsOfMerged
 CHECK_DEADLOCK FALSE
